@@ -1341,6 +1341,10 @@ func genTxHistory(rng *rand.Rand, steps int, idx int) []string {
 			if rng.Intn(3) == 0 {
 				hash[0] = 0x10 // shared prefixes exercise bytes.Compare on different lengths
 			}
+			if flavour == 5 && i == 2 {
+				// the EMPTY hash is a hash like any other (nothing validates it): indexed, counted, removed and evicted as the others
+				hash = []byte{}
+			}
 			if !used[string(hash)] {
 				used[string(hash)] = true
 				break
